@@ -84,11 +84,11 @@ pub fn convert_objects(
             format!(
                 r#"{{"g":"catch_obj",{kind},"x":{},"t":{},"end":{},"hr":{hr_offsets},"nested":{},"last_pos":{},"last_t":{},"draws":{},"bit_idx":{}}}"#,
                 h.pos.x,
-                h.start_time,
-                h.end_time(),
+                h.start_time as i32,
+                h.end_time() as i32,
                 new_objects.len(),
                 last_pos.map_or_else(|| "null".to_owned(), |pos| pos.to_string()),
-                last_start_time,
+                last_start_time as i32,
                 rng.verif_draws,
                 rng.verif_bit_idx(),
             )
